@@ -113,7 +113,7 @@ def run(name, cfg, lg):
             if lg.get("carrier") == "ma":
                 # masked array whose masked slots keep the SAME finite payload whatever the transformation
                 miss = [v in (NAN, None) for v in lg["x"]]
-                kw["inp"] = np.ma.MaskedArray(np.array([999.0 if m else float(v) for v, m in zip(lg["x"], miss)]), mask=miss)
+                kw["inp"] = np.ma.MaskedArray(np.array([p if m else float(v) for v, m, p in zip(lg["x"], miss, lg["payload"])]), mask=miss)
         if "tinp" in kw:
             kw["tinp"] = dt64f(lg["secs"])
         out = alpha.call(fn, **kw)
@@ -294,6 +294,14 @@ def run_task(task, acc):
         lg = logical(name, list(x), step)
         if carrier:
             lg["carrier"] = carrier
+            # the payload hidden under each masked slot: the nearest present value of the BASE series (so the base
+            # looks flat to code that reads through the mask), kept fixed under every transformation
+            xs = list(x)
+            pay = []
+            for i, v in enumerate(xs):
+                near = [xs[j] for j in list(range(i - 1, -1, -1)) + list(range(i + 1, len(xs))) if xs[j] not in (NAN, None)]
+                pay.append(float(near[0]) if near else 0.0)
+            lg["payload"] = pay
         for cfg in cfgs:
             found, nexec, skipped, results = check_series(name, cfg, lg)
             acc.visit(cid(dict(fn=name, cfg=cfg, base=lg)), False, None, edges=nexec - 1, evals=nexec,
